@@ -2,27 +2,33 @@ import CircBuf.Lemmas.TieTac
 set_option linter.unusedSimpArgs false
 set_option linter.unusedVariables false
 set_option maxHeartbeats 1000000
-/-! Tie theorems (pushpop group) — see `CircBuf/Lemmas/CoreTie.lean` for what they are. -/
+/-! Tie theorems (push / pop group) — see `CircBuf/Lemmas/CoreTie.lean` for what they are. -/
 namespace CircBuf
 
 /-! ### push / pop -/
-theorem tie_push_back (x : Elem) (s : Sys) (h : Inv s.buf) :
+theorem tie_push_back (x : Elem) (s : Sys) (h : Inv s.buf)
+    (hnd : NonDefect (pushBack x s).1) :
     Gen.push_back x s = pushBack x s := by
-  tie2 h [Gen.push_back, pushBack, Gen.front_maybe_uninit_mut, frontSlot, Gen.back_maybe_uninit_mut, backSlot, Gen.inc_start, incStart, Gen.inc_size, incSize]
-theorem tie_push_front (x : Elem) (s : Sys) (h : Inv s.buf) :
+  tie3 h hnd [Gen.push_back, pushBack]
+theorem tie_push_front (x : Elem) (s : Sys) (h : Inv s.buf)
+    (hnd : NonDefect (pushFront x s).1) :
     Gen.push_front x s = pushFront x s := by
-  tie2 h [Gen.push_front, pushFront, Gen.front_maybe_uninit_mut, frontSlot, Gen.back_maybe_uninit_mut, backSlot, Gen.dec_start, decStart, Gen.inc_size, incSize]
-theorem tie_try_push_back (x : Elem) (s : Sys) (h : Inv s.buf) :
+  tie3 h hnd [Gen.push_front, pushFront]
+theorem tie_try_push_back (x : Elem) (s : Sys) (h : Inv s.buf)
+    (hnd : NonDefect (tryPushBack x s).1) :
     Gen.try_push_back x s = tryPushBack x s := by
-  tie2 h [Gen.try_push_back, tryPushBack, Gen.back_maybe_uninit_mut, backSlot, Gen.inc_size, incSize]
-theorem tie_try_push_front (x : Elem) (s : Sys) (h : Inv s.buf) :
+  tie3 h hnd [Gen.try_push_back, tryPushBack]
+theorem tie_try_push_front (x : Elem) (s : Sys) (h : Inv s.buf)
+    (hnd : NonDefect (tryPushFront x s).1) :
     Gen.try_push_front x s = tryPushFront x s := by
-  tie2 h [Gen.try_push_front, tryPushFront, Gen.front_maybe_uninit_mut, frontSlot, Gen.dec_start, decStart, Gen.inc_size, incSize]
-theorem tie_pop_back (s : Sys) (h : Inv s.buf) :
+  tie3 h hnd [Gen.try_push_front, tryPushFront]
+theorem tie_pop_back (s : Sys) (h : Inv s.buf)
+    (hnd : NonDefect (popBack s).1) :
     Gen.pop_back s = popBack s := by
-  tie2 h [Gen.pop_back, popBack, Gen.back_maybe_uninit, backSlot, Gen.dec_size, decSize]
-theorem tie_pop_front (s : Sys) (h : Inv s.buf) :
+  tie3 h hnd [Gen.pop_back, popBack]
+theorem tie_pop_front (s : Sys) (h : Inv s.buf)
+    (hnd : NonDefect (popFront s).1) :
     Gen.pop_front s = popFront s := by
-  tie2 h [Gen.pop_front, popFront, Gen.front_maybe_uninit, frontSlot, Gen.dec_size, decSize, Gen.inc_start, incStart]
+  tie3 h hnd [Gen.pop_front, popFront]
 
 end CircBuf
